@@ -4,7 +4,7 @@
    checks/c10.py).  Only final theorems here; proofs are in DnsWfProofs.v / DnsEmitProofs.v /
    DnsAnswerProofs.v. *)
 From Coq Require Import List NArith Arith Bool Lia.
-From Iodine Require Import Base Codec Hostname DnsName DnsMsg DnsWf DnsWfProofs DnsEmitProofs DnsNameencProofs DnsAnswerProofs DnsMxProofs.
+From Iodine Require Import Base Codec Hostname DnsName DnsMsg DnsWf DnsWfProofs DnsEmitProofs DnsNameencProofs DnsAnswerProofs DnsMxProofs DnsAuxProofs C10Examples.
 Import ListNotations.
 Local Open Scope N_scope.
 
@@ -32,17 +32,6 @@ Proof.
 Qed.
 Print Assumptions C10_query_wf.
 
-(* non-vacuity: a two-label name with a high byte and a 63-byte label *)
-Example C10_query_wf_example :
-  wf_labels [[112; 233; 65]; repeat 120 63; [99; 111; 109]] /\
-  exists m, dns_encode_query 4096 true 8727 10 (name_of [[112; 233; 65]; repeat 120 63; [99; 111; 109]]) = Some m /\
-            wf_msgb m = true.
-Proof.
-  split.
-  - split; [|vm_compute; lia].
-    repeat constructor; cbn; try lia; intros H; repeat (destruct H as [H|H]; [discriminate|]); exact H.
-  - eexists. split; vm_compute; reflexivity.
-Qed.
 
 (* ---- C10_answer_wf: every answer write_dns emits ------------------------------------------ *)
 
@@ -75,19 +64,60 @@ Print Assumptions C10_answer_wf.
 (* the payload is arbitrary: no bytes_ok hypothesis is needed (NUL and '.' bytes of the payload
    never reach a name; raw types carry them opaquely) *)
 
-(* non-vacuity: a CNAME answer whose single record carries an encoded name *)
-Example C10_answer_wf_example :
-  let q := {| q_name := name_of [[112; 97; 113]; [116]; [99; 111; 109]]; q_type := T_MX; q_id := 65535 |} in
-  exists m, fst (write_dns q (repeat 255 400) 86 (0, 0)%nat) = Some m /\
-            option_map (fun msg => (length (m_answers msg), map rr_type (m_answers msg))) (wf_msg m) = Some (2%nat, [15; 15]).
-Proof. eexists. split; vm_compute; reflexivity. Qed.
 
-(* the root question is outside the theorem (ls <> []): the owner pointer 0xC00C would then point
-   at the root byte, which is not a label start; the server never answers the root name
-   (query_datalen fails for it) *)
-Example C10_answer_root_not_wf :
-  exists m, fst (write_dns {| q_name := []; q_type := T_NULL; q_id := 1 |} [1; 2] 84 (0, 0)%nat) = Some m /\ wf_msg m = None.
-Proof. eexists. split; vm_compute; reflexivity. Qed.
+
+(* ---- C10_ns / C10_a: the non-tunnel answers of tunnel_dns ----------------------------------- *)
+
+(* q_name = pre ++ d with pre = prefix_of lp (every label of lp followed by '.', so pre is empty or
+   ends in '.'), d = name_of ld the matched domain, dl = length pre: the dispatch conditions of
+   aux_answer / dns_encode_ns_response.  eff_dest dest ns_ip = the address used (-n ns_ip if set,
+   else the IPv4 destination of the query, else none).  wire_len ld <= 252 says "ns." ++ d is
+   still a legal name (tunnel domains have at most 128 characters). *)
+Theorem C10_ns : forall lp ld q dest ns_ip,
+  wf_labels (lp ++ ld) -> ld <> [] -> (wire_len ld <= 252)%nat ->
+  q_name q = prefix_of lp ++ name_of ld -> q_type q = T_NS -> q_id q < 65536 ->
+  (match eff_dest dest ns_ip with Some ip => length ip = 4%nat | None => True end) ->
+  exists m msg,
+    aux_answer q (length (prefix_of lp)) dest ns_ip = Some m /\ wf_msg m = Some msg /\
+    m_id msg = q_id q /\ m_qr msg = true /\ m_qname msg = lp ++ ld /\ m_qtype msg = T_NS /\ m_qclass msg = 1 /\
+    m_authority msg = [] /\
+    (exists r, m_answers msg = [r] /\ rr_name r = lp ++ ld /\ rr_type r = T_NS /\ rr_class r = 1 /\
+               rr_rdname r = Some ([110; 115] :: ld)) /\
+    match eff_dest dest ns_ip with
+    | Some ip => exists a, m_additional msg = [a] /\ rr_name a = [110; 115] :: ld /\ rr_type a = T_A /\ rr_class a = 1 /\
+                           rr_rdata a = ip
+    | None => m_additional msg = []
+    end.
+Proof.
+  intros lp ld q dest ns_ip Hwf Hne Hwd Hn Hty Hid Hip.
+  destruct (ns_answer_wf q lp ld dest ns_ip Hwf Hne Hwd Hn Hty Hid Hip) as [m [msg [H1 [H2 H3]]]].
+  exists m, msg. split; [exact H1|]. split; [exact H2|]. exact H3.
+Qed.
+Print Assumptions C10_ns.
+
+
+
+Theorem C10_a : forall (lbl : list N) ls q dl dest ns_ip ip,
+  wf_labels (lbl :: ls) -> ls <> [] -> q_name q = name_of (lbl :: ls) -> q_id q < 65536 -> q_type q = T_A ->
+  length ip = 4%nat ->
+  ((map lc lbl = [110; 115] /\ dl = 3%nat /\ eff_dest dest ns_ip = Some ip) \/          (* "ns." ++ d, any case *)
+   (map lc lbl = [119; 119; 119] /\ dl = 4%nat /\ ip = [127; 0; 0; 1])) ->               (* "www." ++ d: 127.0.0.1 *)
+  exists m msg,
+    aux_answer q dl dest ns_ip = Some m /\ wf_msg m = Some msg /\
+    m_id msg = q_id q /\ m_qr msg = true /\ m_qname msg = lbl :: ls /\ m_qtype msg = T_A /\ m_qclass msg = 1 /\
+    m_authority msg = [] /\ m_additional msg = [] /\
+    exists r, m_answers msg = [r] /\ rr_name r = lbl :: ls /\ rr_type r = T_A /\ rr_class r = 1 /\ rr_rdata r = ip.
+Proof.
+  intros lbl ls q dl dest ns_ip ip Hwf Hne Hn Hid Hty Hip Hcase.
+  destruct (a_answer_wf q lbl ls dl dest ns_ip ip Hwf Hne Hn Hid Hty Hip Hcase) as [m [msg [H1 [H2 H3]]]].
+  exists m, msg. split; [exact H1|]. split; [exact H2|]. exact H3.
+Qed.
+Print Assumptions C10_a.
+
+
+(* non-vacuity examples of the four theorems (hypotheses satisfiable on non-trivial values, with the
+   emitted message computed and parsed) are in C10Examples.v: C10_query_wf_example, C10_answer_wf_example,
+   C10_answer_root_not_wf, C10_ns_example, C10_ns_long_domain_not_wf, C10_a_example. *)
 
 (* ---- C10_spec_rejects: the specification parser is not vacuous ---------------------------- *)
 
